@@ -563,8 +563,8 @@ def make_driver(n_quick: int, n_thorough: int):
 
 
 SUBCHECKS = [
-    SubCheck("decode", oracle_decode, make_driver(14400, 400000), "raw-bytes and generic-parser decoders: values equal the encoded ones and both paths agree"),
-    SubCheck("reencode_raw", oracle_reencode_raw, make_driver(6400, 200000), "as_ipsc_bytes of the frame decoded from raw bytes reproduces the 72 octets"),
-    SubCheck("reencode_generic", oracle_reencode_generic, make_driver(6400, 200000), "as_ipsc_bytes of the frame decoded through the generic parser reproduces the 72 octets"),
+    SubCheck("decode", oracle_decode, make_driver(12000, 400000), "raw-bytes and generic-parser decoders: values equal the encoded ones and both paths agree"),
+    SubCheck("reencode_raw", oracle_reencode_raw, make_driver(5600, 200000), "as_ipsc_bytes of the frame decoded from raw bytes reproduces the 72 octets"),
+    SubCheck("reencode_generic", oracle_reencode_generic, make_driver(5600, 200000), "as_ipsc_bytes of the frame decoded through the generic parser reproduces the 72 octets"),
 ]
 PREDICATES = {}
